@@ -23,7 +23,8 @@ def opname(op):
 
 class Spec:
     def __init__(self, starts, ops, depth, check_ops=(), on_state=None, on_transition=None,
-                 apply=None, want_before=False, exc_is_violation=False, label=''):
+                 apply=None, want_before=False, exc_is_violation=False, label='',
+                 last_level_ops=None):
         self.starts = starts              # name -> (thunk, model)
         self.ops = list(ops)
         self.depth = depth
@@ -34,6 +35,8 @@ class Spec:
         self.want_before = want_before
         self.exc_is_violation = exc_is_violation
         self.label = label
+        self.last_level_ops = last_level_ops   # ops tried from the deepest frontier (default: all)
+        self.cur_ops = self.ops
 
 
 class Tr:
@@ -106,7 +109,7 @@ def _work(chunk, acc):
     local = set()
     for sname, hist in chunk:
         hist = tuple(hist)
-        for op in spec.ops:
+        for op in spec.cur_ops:
             t, m = build(spec, sname, hist)
             case = {'start': sname, 'history': [list(o) for o in hist + (op,)]}
 
@@ -197,6 +200,8 @@ def explore(run, spec):
         if not frontier:
             fixpoint = True
             break
+        spec.cur_ops = spec.last_level_ops if (d == spec.depth and spec.last_level_ops is not None) \
+            else spec.ops
         rets = run.pmap(_work, frontier, collect=True)
         nxt = []
         for ret in rets:
